@@ -12,6 +12,9 @@ Bounded part (labelled bounded; lists of controller levels are unrolled: <= 3 le
   * control_implementation (max_iter = 2, ghost state: `dirty` = an element value was written since the last power flow):
     on normal return every controller of every level reported convergence after the last control step and no control step
     happened after the last power flow; levels are processed in list order.
+
+Added later: TrafoController.initialize_control re-derives the direction coefficient, the tap parameters and the controlled bus from the current
+network (run_initialize; single-index controllers, controlled side lv / hv).
 """
 from __future__ import annotations
 
